@@ -5,6 +5,7 @@ import (
 	"maps"
 	"os"
 	"path/filepath"
+	"slices"
 	"strings"
 
 	"github.com/joho/godotenv"
@@ -99,9 +100,11 @@ func (e *Executor) compiledTask(call *Call, evaluateShVars bool) (*ast.Task, err
 			if err != nil {
 				return nil, err
 			}
-			for key, value := range envs {
+			// In sorted order: the values are templated in the order in
+			// which they are added, and may refer to each other
+			for _, key := range slices.Sorted(maps.Keys(envs)) {
 				if _, ok := dotenvEnvs.Get(key); !ok {
-					dotenvEnvs.Set(key, ast.Var{Value: value})
+					dotenvEnvs.Set(key, ast.Var{Value: envs[key]})
 				}
 			}
 		}
